@@ -151,8 +151,14 @@ func (sc *Scheduler) Schedule(ctx context.Context, g *ExecutionGraph, done chan 
 					sc.lastError = err
 					node.setErr(err)
 				}
+				// released is set once the node has been handed back to the
+				// scheduling loop for a retry: from then on the node (and its
+				// writers) may belong to the next attempt.
+				released := false
 				defer func() {
-					_ = sc.teardownNode(node)
+					if !released {
+						_ = sc.teardownNode(node)
+					}
 				}()
 
 			ExecRepeat:
@@ -184,6 +190,10 @@ func (sc *Scheduler) Schedule(ctx context.Context, g *ExecutionGraph, done chan 
 							)
 							time.Sleep(node.data.Step.RetryPolicy.Interval)
 							node.setRetriedAt(time.Now())
+							// flush and close this attempt's files before the
+							// node can be launched again
+							_ = sc.teardownNode(node)
+							released = true
 							node.setStatus(NodeStatusNone)
 						default:
 							// finish the node
@@ -213,9 +223,11 @@ func (sc *Scheduler) Schedule(ctx context.Context, g *ExecutionGraph, done chan 
 				if node.State().Status == NodeStatusRunning {
 					node.setStatus(NodeStatusSuccess)
 				}
-				if err := sc.teardownNode(node); err != nil {
-					sc.setLastError(err)
-					node.setStatus(NodeStatusError)
+				if !released {
+					if err := sc.teardownNode(node); err != nil {
+						sc.setLastError(err)
+						node.setStatus(NodeStatusError)
+					}
 				}
 				if done != nil {
 					done <- node
